@@ -455,7 +455,7 @@ func runC18(r *core.Run) {
 						emit(c18File{f.Name, fmt.Sprint("medium/", i), gz})
 					}
 				}
-				for _, what := range append(fileBeginningNames(), "error", "error-middle", "longline", "large", "gzip-magic", "gzip-bytes", "zstd-magic") {
+				for _, what := range append(fileBeginningNames(), "long-lines-of-every-kind:5000", "error", "error-middle", "longline", "large", "gzip-magic", "gzip-bytes", "zstd-magic") {
 					for _, gz := range []bool{false, true} {
 						emit(c18File{f.Name, what, gz})
 					}
